@@ -168,11 +168,10 @@ class DeviceInfoCache:
                 del self.cache[cache_address]
             self.cache[device_info.address] = device_info
 
-        # a record that is not in the cache yet is filed under both keys
-        if cache_id is None:
-            self.cache[device_info.deviceIdentifier] = device_info
-        if cache_address is None:
-            self.cache[device_info.address] = device_info
+        # the record is filed under both keys, also when they did not change,
+        # another record might have taken one of them over in the meantime
+        self.cache[device_info.deviceIdentifier] = device_info
+        self.cache[device_info.address] = device_info
 
         # update the keys
         device_info._cache_keys = (device_info.deviceIdentifier, device_info.address)
